@@ -1,4 +1,6 @@
 import PqModel.DeltaProofs
+import PqModel.DeltaGoProofs
+import PqModel.DeltaKernel
 
 /-! # C04 (part DELTA) — DELTA_BINARY_PACKED, DELTA_LENGTH_BYTE_ARRAY and DELTA_BYTE_ARRAY are
 lossless and conform to the format, for every input.
@@ -117,5 +119,101 @@ example : mirrorEncode32 [] = [128, 1, 4, 0, 0] := by decide
 example : mirrorEncode32 [7#32] = [128, 1, 4, 1, 14] := by decide
 example : (mirrorEncode32 [5#32, 10#32]).take 11 = [128, 1, 4, 2, 10, 19, 4, 0, 0, 0, 15] := by decide +kernel
 example : (mirrorEncode32 [5#32, 10#32]).length = 26 := by decide +kernel
+
+/-! ## The Go decoders (mirror of `decodeInt32/64`, `LengthByteArrayEncoding.DecodeByteArray`,
+portable `ByteArrayEncoding.DecodeByteArray`, PqModel/DeltaGo.lean) against the format -/
+
+/-- On EVERY stream the spec decoder reads — every conformant stream, any legal block/miniblock
+geometry, widths, frame of reference — the Go INT32 decoder returns the same values and the same
+remaining bytes, or refuses the stream with one of Go's documented limits (`GoErr.isLimit`). -/
+theorem goDecode32_eq_spec (bs : List Nat) (xs : List (BitVec 32)) (r : List Nat)
+    (h : specDecode32 bs = .ok (xs, r)) :
+    goDecode32 bs = .ok (xs, r) ∨ ∃ e, goDecode32 bs = .error e ∧ e.isLimit = true :=
+  goDecode_of_specDecode 32 h
+
+/-- INT64 twin. -/
+theorem goDecode64_eq_spec (bs : List Nat) (xs : List (BitVec 64)) (r : List Nat)
+    (h : specDecode64 bs = .ok (xs, r)) :
+    goDecode64 bs = .ok (xs, r) ∨ ∃ e, goDecode64 bs = .error e ∧ e.isLimit = true :=
+  goDecode_of_specDecode 64 h
+
+example : specDecode32 (mirrorEncode32 [5#32, 10#32]) = .ok ([5#32, 10#32], []) := delta32_roundtrip _
+
+/-- Go decoder ∘ Go encoder = identity (both mirrors), for every list of fewer than 2^31 values
+(Go's decoder refuses more than MaxInt32 values). -/
+theorem goDecode32_mirrorEncode32 (xs : List (BitVec 32)) (tail : List Nat) (hl : xs.length < 2 ^ 31) :
+    goDecode32 (mirrorEncode32 xs ++ tail) = .ok (xs, tail) :=
+  goDecode_mirrorEncode (Or.inl rfl) xs tail hl
+
+theorem goDecode64_mirrorEncode64 (xs : List (BitVec 64)) (tail : List Nat) (hl : xs.length < 2 ^ 31) :
+    goDecode64 (mirrorEncode64 xs ++ tail) = .ok (xs, tail) :=
+  goDecode_mirrorEncode (Or.inr rfl) xs tail hl
+
+example : ([5#32, 10#32] : List (BitVec 32)).length < 2 ^ 31 := by decide
+
+/-- The one place where Go accepts more than the format (besides the header checks it omits):
+miniblock bodies are read as if the input were followed by zero bytes. -/
+theorem go_truncated_tail_is_zero_extension (n vpm : Nat) (ws : List Nat) (tot : Nat) (src : List Nat) (k : Nat) :
+    (goMinis n vpm ws tot (src ++ List.replicate k 0)).map (fun p => (p.1, p.2.1))
+      = (goMinis n vpm ws tot src).map (fun p => (p.1, p.2.1)) :=
+  goMinis_zero_extension n vpm ws tot src k
+
+/-- DELTA_LENGTH_BYTE_ARRAY decoder: same values as the spec on every stream the spec reads
+(values totalling less than 4 GiB: Go's offsets are `uint32`), or a documented limit. -/
+theorem goDecodeDLBA_eq_spec (bs : List Nat) (vs : List (List Nat)) (r : List Nat)
+    (h : specDecodeDLBA bs = .ok (vs, r)) (hb : vs.flatten.length < 2 ^ 32) :
+    goDecodeDLBA bs = .ok (vs.flatten, offsetsFrom 0 vs) ∨ ∃ e, goDecodeDLBA bs = .error e ∧ e.isLimit = true :=
+  goDecodeDLBA_of_spec h hb
+
+example : specDecodeDLBA (mirrorEncodeDLBA [[1, 2], []]) = .ok ([[1, 2], []], []) ∧
+    ([[1, 2], []] : List (List Nat)).flatten.length < 2 ^ 32 :=
+  ⟨dlba_roundtrip _ (by decide), by decide⟩
+
+/-- DELTA_BYTE_ARRAY decoder (portable variant): same values as the spec on every stream the spec
+reads, or a documented limit. -/
+theorem goDecodeDBA_eq_spec (bs : List Nat) (vs : List (List Nat)) (r : List Nat)
+    (h : specDecodeDBA bs = .ok (vs, r)) :
+    goDecodeDBA bs = .ok vs ∨ ∃ e, goDecodeDBA bs = .error e ∧ e.isLimit = true :=
+  goDecodeDBA_of_spec h
+
+example : specDecodeDBA (mirrorEncodeDBA [[1, 2], [1, 3]]) = .ok ([[1, 2], [1, 3]], []) :=
+  dba_roundtrip _ (by decide)
+
+/-! ## The bit packing kernel: word-level OR = LSB-first packing -/
+
+/-- `encodeMiniBlockInt32` (binary_packed_purego.go:9-28, mirrored word by word in
+PqModel/DeltaKernel.lean) leaves in a zero-filled buffer exactly the LSB-first packing of the 32
+values, for every width 1..32 and all values that fit the width. -/
+theorem kernel32_is_lsb_first_packing (w L : Nat) (mb : List (BitVec 32)) (hl : mb.length = 32)
+    (hw0 : 0 < w) (hw : w ≤ 32) (hv : ∀ v ∈ mb, v.toNat < 2 ^ w) (hL : w + 1 ≤ L) :
+    kernelBytes w L mb = packMini w mb :=
+  kernel32_eq_packMini w L mb hl hw0 hw hv hL
+
+/-- `encodeMiniBlockInt64` (binary_packed_purego.go:30-49), widths 1..64. -/
+theorem kernel64_is_lsb_first_packing (w L : Nat) (mb : List (BitVec 64)) (hl : mb.length = 32)
+    (hw0 : 0 < w) (hw : w ≤ 64) (hv : ∀ v ∈ mb, v.toNat < 2 ^ w) (hL : w / 2 + 2 ≤ L) :
+    kernelBytes w L mb = packMini w mb :=
+  kernel64_eq_packMini w L mb hl hw0 hw hv hL
+
+example : ∃ (mb : List (BitVec 32)), mb.length = 32 ∧ (∀ v ∈ mb, v.toNat < 2 ^ 3) ∧ mb ≠ List.replicate 32 0 :=
+  ⟨List.replicate 32 5#32, by simp, by intro v hv; rw [List.eq_of_mem_replicate hv]; decide, by decide +kernel⟩
+
+/-- The encoder transliterated down to the word OR-ing (`mirrorEncodeK`, what the driver runs and
+L2 compares with the real bytes) is the encoder the round-trip theorems are about. -/
+theorem mirrorEncodeK32_eq (xs : List (BitVec 32)) : mirrorEncodeK xs = mirrorEncode32 xs :=
+  mirrorEncodeK_eq (Or.inl rfl) xs
+
+theorem mirrorEncodeK64_eq (xs : List (BitVec 64)) : mirrorEncodeK xs = mirrorEncode64 xs :=
+  mirrorEncodeK_eq (Or.inr rfl) xs
+
+/-- end to end with nothing abstracted in the encoder: spec decoder and Go decoder on the
+word-level encoder -/
+theorem delta32_roundtrip_wordlevel (xs : List (BitVec 32)) :
+    specDecode32 (mirrorEncodeK xs) = .ok (xs, []) := by
+  rw [mirrorEncodeK32_eq]; exact delta32_roundtrip xs
+
+theorem delta64_roundtrip_wordlevel (xs : List (BitVec 64)) :
+    specDecode64 (mirrorEncodeK xs) = .ok (xs, []) := by
+  rw [mirrorEncodeK64_eq]; exact delta64_roundtrip xs
 
 end PqModel.Props.C04Delta
